@@ -110,6 +110,15 @@ pub fn ptr_use(ptr: usize, site: &'static str) {
     emit(Event::PtrUse { ptr, site })
 }
 
+/// Hook: the elements of a list are about to be read through a slice that
+/// starts at `buf` (reported as a pointer that was just made from the buffer
+/// and is used right away)
+#[inline]
+pub fn slice_use(buf: usize, elem_size: usize, site: &'static str) {
+    emit(Event::PtrMade { ptr: buf, buf, elem_size });
+    emit(Event::PtrUse { ptr: buf, site })
+}
+
 /// Is the list mutex at this address (from a [`Event::ListLock`]) free?
 ///
 /// # Safety
